@@ -11,7 +11,12 @@ Supported Rust subset (anything else is a translation failure, reported as such)
   `as` casts, unary `- !`, binary `* / % + - << >> & ^ | == != < <= > >= && ||`, parens, tuples,
   arrays, `[e; N]`, `if c { a } else { b }`, `Self(e)`; array patterns `let [a, (b, c)] = e;`,
   `for r in 0..N { .. }` with a literal bound whose index is used (unrolled; `a[r]` / `a[r] = e` on
-  fixed-size arrays), a `&mut` parameter without return type (the function returns its final value).
+  fixed-size arrays), a `&mut` parameter without return type (the function returns its final value);
+  `while c { .. }` that updates outer variables (kernel mode, only for functions whose spec entry gives
+  `"fuel": N`: translated to `Wf.whileFuel N`, i.e. the loop stops after N iterations at the latest; condition and body
+  of loop #k become the top-level definitions `<fn>_while<k>_cond` / `_body`, parametrised by the variables
+  they read from the enclosing scopes) and
+  the guard `if c { return e; }` as a statement of the function body (`if c then e else <rest>`).
 
 Two modes per function:
   kernel  : machine integers -> `BitVec w` with Rust *release* (wrapping) semantics; the element
@@ -224,7 +229,17 @@ class Parser:
                     self.accept(";")
                     stmts.append(("ifstmt", e))
                 continue
-            if self.peek()[1] in ("while", "loop", "match"):
+            if self.peek()[1] == "while":
+                self.next()
+                c = self.parse_expr(no_struct=True)
+                self.expect("{")
+                body, wtail = self.parse_block()
+                self.expect("}")
+                if wtail is not None:
+                    raise TError("while body with tail expression")
+                stmts.append(("while", c, body))
+                continue
+            if self.peek()[1] in ("loop", "match"):
                 raise TError(f"unsupported statement `{self.peek()[1]}`")
             e = self.parse_expr()
             if self.peek()[1] in ("=", "+=", "-=", "*=", "|=", "&=", "^=", "<<=", ">>="):
@@ -441,6 +456,10 @@ class Gen:
         self.consts = consts          # name -> (type, lean_name)
         self.fnsigs = fnsigs          # rust name -> (lean name, [param types], ret type, const params, mode, generics)
         self.lanes = bool(fn.get("lanes"))
+        self.fuel = fn.get("fuel")
+        self.lname = fn.get("lean", fn.get("name"))
+        self.nwhile = 0
+        self.aux = []                 # top-level helper definitions (loop conditions / bodies), in dependency order
         self.fresh = 0
 
     def norm_ty(self, t):
@@ -748,10 +767,32 @@ class Gen:
         raise TError(f"unsupported method .{name}() on {t!r}")
 
     # ---- blocks / statements ----
-    def block(self, blk, env, want=None):
+    @staticmethod
+    def is_guard(s):
+        """`if c { return e; }` (no else) as a statement"""
+        return (s[0] == "ifstmt" and s[1][3] is None and s[1][2][1] is None and len(s[1][2][0]) == 1
+                and s[1][2][0][0][0] == "return")
+
+    def block(self, blk, env, want=None, fn_body=False):
         stmts, tail = blk
         env = dict(env)
         lines = []
+        if fn_body:
+            for i, st in enumerate(stmts):
+                if self.is_guard(st):
+                    # early exit of the function: `if c then e else <rest of the body>`
+                    self.stmts(stmts[:i], env, lines)
+                    c, ct = self.expr(st[1][1], env, "bool")
+                    if ct != "bool":
+                        raise TError("guard condition is not bool")
+                    r, rt = self.expr(st[1][2][0][0][1], env, want)
+                    rest, t = self.block((stmts[i + 1:], tail), env, want, fn_body=True)
+                    if self.ity(rt) != self.ity(t):
+                        raise TError(f"early return of {rt!r} in a function returning {t!r}")
+                    l = f"(if {c} then {r} else {rest})"
+                    if not lines:
+                        return l, t
+                    return "(" + "\n".join(lines) + "\n" + l + ")", t
         self.stmts(stmts, env, lines)
         if tail is None:
             raise TError("block without tail expression")
@@ -795,7 +836,23 @@ class Gen:
                 for n in self.assigned(s[4]):
                     if n not in out:
                         out.append(n)
+            elif s[0] == "while":
+                for n in self.assigned(s[2]):
+                    if n not in out:
+                        out.append(n)
         return out
+
+    def free_names(self, node, acc=None):
+        """single-segment names mentioned anywhere in an AST fragment, in order of first appearance"""
+        acc = [] if acc is None else acc
+        if isinstance(node, tuple) and len(node) >= 2 and node[0] == "path" and isinstance(node[1], list):
+            if len(node[1]) == 1 and node[1][0] not in acc:
+                acc.append(node[1][0])
+            return acc
+        if isinstance(node, (tuple, list)):
+            for x in node:
+                self.free_names(x, acc)
+        return acc
 
     def stmts(self, stmts, env, lines):
         for s in stmts:
@@ -887,8 +944,41 @@ class Gen:
                 ls = []
                 self.stmts(body, e2, ls)
                 lines.append(f"let {v} := Nat.repeat (fun {v} => (" + "\n".join(ls + [v]) + f")) {n} {v}")
+            elif s[0] == "while":
+                if self.mode != "kernel" or not self.fuel:
+                    raise TError("`while` needs kernel mode and a \"fuel\" bound in the spec entry")
+                outer = [x for x in self.assigned(s[2]) if x in env]
+                if not outer:
+                    raise TError("while loop that updates no outer variable")
+                tup = "(" + ", ".join(outer) + ")" if len(outer) > 1 else outer[0]
+                sty = lean_ty(("tuple", tuple(env[x][1] for x in outer)), self.elem) if len(outer) > 1 \
+                    else lean_ty(env[outer[0]][1], self.elem)
+                # variables of the enclosing scopes that the loop reads but does not update: parameters of
+                # the loop's two top-level definitions
+                caps = [x for x in self.free_names((s[1], s[2])) if x in env and x not in outer]
+                for x in caps:
+                    if not (env[x][1] in INT_W or env[x][1] in ("E", "bool")):
+                        raise TError(f"while loop captures `{x}` of unsupported type {env[x][1]!r}")
+                e2 = dict(env)
+                for x in outer:
+                    e2[x] = (x, env[x][1])
+                cl, ct = self.expr(s[1], e2, "bool")
+                if ct != "bool":
+                    raise TError("while condition is not bool")
+                ls = []
+                self.stmts(s[2], e2, ls)
+                self.nwhile += 1
+                base = f"{self.lname}_while{self.nwhile}"
+                cbind = "".join(f" ({env[x][0]} : {lean_ty(env[x][1], self.elem)})" for x in caps)
+                cargs = "".join(f" {env[x][0]}" for x in caps)
+                self.aux.append(f"/-- condition of `while` loop #{self.nwhile} of `{self.lname}` (state: {', '.join(outer)}) -/\n"
+                                f"def {base}_cond{cbind} : {sty} → Bool :=\n  fun {tup} => {cl}\n")
+                self.aux.append(f"/-- body of `while` loop #{self.nwhile} of `{self.lname}` -/\n"
+                                f"def {base}_body{cbind} : {sty} → {sty} :=\n  fun {tup} => ("
+                                + "\n".join(ls + [tup]).replace("\n", "\n  ") + ")\n")
+                lines.append(f"let {tup} := (Wf.whileFuel {int(self.fuel)} ({base}_cond{cargs}) ({base}_body{cargs}) {tup})")
             elif s[0] == "return":
-                raise TError("early return not supported")
+                raise TError("early return not supported (only the guard `if c { return e; }` in a function body)")
             else:
                 raise TError(f"unsupported statement {s[0]}")
 
@@ -1064,10 +1154,11 @@ def translate(spec):
             blk = (blk[0] + [("expr", blk[1])], ("path", [mutrefs[0]], []))
         else:
             rty = g.norm_ty(ret)
-        l, t = g.block(blk, env, rty)
+        l, t = g.block(blk, env, rty, fn_body=True)
         if g.ity(t) != g.ity(rty) and t != rty:
             raise TError(f"{fn['name']}: body has type {t!r}, signature says {rty!r}")
         lname = fn.get("lean", fn["name"])
+        out.extend(g.aux)
         out.append(f"/-- `{fpath}` :: `{fn.get('anchor') or 'fn'}` :: `{fn['name']}` -/" if "file" in fn
                    else f"/-- `{fn.get('anchor') or 'fn'}` :: `{fn['name']}` -/")
         out.append(f"def {lname} {' '.join(binders)} : {lean_ty(rty, g.elem)} :=")
